@@ -19,8 +19,10 @@ THEOREMS = [
     "GmqttVerif.Fed.remote_retained_clear_as_is_refuted",
     "GmqttVerif.Fed.remote_retained_set",
 ]
-EXTRA_MODULES = ["GmqttVerif.Properties.FedSource"]
-NEEDS_FACTS = ["FedFuncs"]
+THEOREMS += ["GmqttVerif.ResyncRace.resync_restores_equality", "GmqttVerif.ResyncRace.resync_restores_equality_quiet",
+             "GmqttVerif.ResyncRace.snapshot_first_can_lose", "GmqttVerif.ResyncRace.source_resync_order"]
+EXTRA_MODULES = ["GmqttVerif.Properties.FedSource", "GmqttVerif.Properties.FedResync"]
+NEEDS_FACTS = ["FedFuncs", "FedResync"]
 COMPS = ["fedroute", "fedsession"]
 
 LEVELS = ["a", "b", "+", "#"]
@@ -293,6 +295,39 @@ def extra(r):
                 "# (Properties/FedSource.lean); the streams run them in lock-step only, so orderings inside them that matter under\n"
                 "# concurrency are not observed: re-read the model against the new text\n" + "".join(f"# changed: {n}\n" for n in changed))
         r.violation("fed-source", body, False, "transcribed federation functions changed: " + ", ".join(changed))
+
+    resync_extra(r)
+
+def resync_extra(r):
+    """model-side search for source_resync_order: when initStream no longer clears the queue BEFORE it takes the snapshot of the local
+    topics, Model/ResyncRace.lean has a schedule on which the peer never learns of a subscription"""
+    import os, re as _re
+    try:
+        gen = open(os.path.join(core.LEAN, "GmqttVerif", "Generated", "FedResync.lean")).read()
+    except OSError:
+        return
+    m = _re.search(r"def resyncOrderN : List Nat :=\s*\n\s*\[(.*?)\]", gen)
+    codes = [int(x) for x in m.group(1).split(",") if x.strip()] if m else []
+    if codes[:4] == [1, 2, 3, 4] and all(c in (5, 6) for c in codes[4:]):
+        return
+    where = _re.search(r"def resyncOrder : List String :=\s*\n\s*(\[.*?\])\n", gen, _re.S)
+    snap_first = 1 in codes and any(c in (3, 9) for c in codes[:codes.index(1)])
+    body = ("# plugin/federation/peer.go initStream: the clean-start resynchronisation is no longer `queue.clear(); Lock; queue a Subscribe per\n"
+            f"# local topic; Unlock` (Generated/FedResync.lean resyncOrder = {where.group(1) if where else codes}).\n")
+    if snap_first:
+        body += ("# Something that may be the snapshot of the local topics now comes BEFORE the queue is cleared. Schedule of\n"
+                 "# Model/ResyncRace.lean (theorem snapshot_first_can_lose) after which the node has a local subscriber, nothing is in flight, and the\n"
+                 "# peer — replaying the queue on its emptied state — does not know the topic, so matching messages published there are not forwarded:\n"
+                 "#stream resync-race-schedule\n"
+                 "resync      # initStream (peer goroutine): snapshot of localSubStore.topics — the topic is not there\n"
+                 "upd true    # a client's SUBSCRIBE: OnSubscribedWrapper updates localSubStore (0 -> 1)\n"
+                 "emit        # the same hook queues the Subscribe event for the peer\n"
+                 "resync      # initStream: p.queue.clear() — the event is gone\n"
+                 "resync      # initStream: queues the snapshot — no Subscribe for the topic\n")
+        r.violation("resync-race", body, True, "initStream takes the snapshot of the local topics before it clears the queue (losing schedule in the replay)")
+    else:
+        r.violation("resync-order", body + "# the order is not one the model understands; re-read Model/ResyncRace.lean against the new text\n", False,
+                    "the order of the clean-start resynchronisation changed")
 
 def run(r):
     return core.standard_run(r, __import__(__name__, fromlist=["x"]))
